@@ -4,7 +4,7 @@ satisfaction table (Kani).
 
 Complete harnesses: loop-free row functions over fully symbolic children (`ExtData` built field by field from
 `kani::any()`, every `usize` field < 2^40 -- the stated precondition that excludes arithmetic overflow).
-Bounded harnesses: `multi`/`sortedmulti` (iterator over a `Vec` of keys) and `threshold` (n <= 3).
+Bounded harnesses: `multi`/`sortedmulti` (iterator over a `Vec` of keys) and `threshold` (n <= 2).
 
 The tag list of every harness is derived from the harness text itself (macro invocations `statics!/bound!/only_if!`
 with a literal row name, and literal "C09:<tag>" messages), so a tag cannot be listed without being asserted.
@@ -95,10 +95,16 @@ _FN = {
 # > 60 s each (sort_by_key + five dyn-closure folds under CBMC): n = 2 takes ~100 s, n = 3 ~200 s / 4.6 GB.
 # c09_thresh_n2_k1 stays in the quick tier although it is over the budget: it is the harness that exposes the
 # `i <= k` finding.
-_THOROUGH = {"c09_thresh_n2_k2", "c09_thresh_n3_k1", "c09_thresh_n3_k2", "c09_thresh_n3_k3"}
+_THOROUGH = {"c09_thresh_n2_k2"}
+# n = 3 (200 s / 4.6 GB each when they were written) no longer finish within the memory cap of the harness runner on this
+# machine (CBMC gives no verdict): not registered, the harness text stays in the .rs file.  The unbounded statement about
+# thresholds is not available from Kani at all; n <= 2 is the stated bound.
+_DISABLED = {"c09_thresh_n3_k1", "c09_thresh_n3_k2", "c09_thresh_n3_k3"}
 
 HARNESSES = []
 for _nm in sorted(_TAGS):
+    if _nm in _DISABLED:
+        continue
     _h = dict(name=_nm, props=("C09", "C11"), tier="thorough" if _nm in _THOROUGH else "quick", tags=["C09:" + t for t in _TAGS[_nm]])
     if _nm in _BOUNDED:
         _h.update(fn=_BOUNDED[_nm][0], kind="bounded", bound=_BOUNDED[_nm][1])
